@@ -9,18 +9,18 @@ MC_ALL_DIRECT = ["P01_DeliveryNominal", "P16_Price", "P10_RoundTrip", "P10_Accep
                  "P08_OnlyUriAttr", "P08_WrongHash", "P09_Admissible", "P09_Rejected"]
 
 
-def mc_cfg(fns, msgs, supply, ctr, checked=None, bugs=(), hs=("u0a", "u0b", "u1a"), freeze=("u0a",), ptoks=("46",), pshards=(0,), gas=(1000,), rejected=False, emit=False, rejsample=4,
+def mc_cfg(fns, msgs, supply, ctr, checked=None, bugs=(), hs=("u0a", "u0b", "u1a"), freeze=("u0a",), ptoks=("46",), pshards=(0,), gas=(1000,), rejected=False, emit=False, rejsample=4, accsample=1,
            invs=("InvNoViol", "InvConservation", "InvNoNegative", "InvWellFormed", "InvSysClean", "InvNonces")):
     q = lambda l: "{" + ", ".join('"%s"' % x for x in l) + "}"
     pd = q(ptoks) + "\n  PauseShards = {" + ", ".join(str(x) for x in pshards) + "}"
     return ("SPECIFICATION Spec\nCONSTANTS\n  Fns = %s\n  MaxMsgs = %d\n  MaxSupply = %d\n  MaxCtr = %d\n  Hs = %s\n  FreezeAccts = %s\n  PauseToks = %s\n"
-            "  GasPoints = {%s}\n  ExploreRejected = %s\n  EmitTransitions = %s\n  RejSample = %d\n  Bugs = %s\n  Checked = %s\nINVARIANTS %s\nVIEW View\nCHECK_DEADLOCK FALSE\n") % (
-        q(fns), msgs, supply, ctr, q(hs), q(freeze), pd, ", ".join(str(g) for g in gas), "TRUE" if rejected else "FALSE", "TRUE" if emit else "FALSE", rejsample, q(bugs), q(checked or MC_ALL_DIRECT), " ".join(invs))
+            "  GasPoints = {%s}\n  ExploreRejected = %s\n  EmitTransitions = %s\n  RejSample = %d\n  AccSample = %d\n  Bugs = %s\n  Checked = %s\nINVARIANTS %s\nVIEW View\nCHECK_DEADLOCK FALSE\n") % (
+        q(fns), msgs, supply, ctr, q(hs), q(freeze), pd, ", ".join(str(g) for g in gas), "TRUE" if rejected else "FALSE", "TRUE" if emit else "FALSE", rejsample, accsample, q(bugs), q(checked or MC_ALL_DIRECT), " ".join(invs))
 
 
 # per property: driver profile and flags, predicates checked on recorded behaviour, model configurations (quick, thorough), vacuity guards
-def M(fns, msgs=1, supply=2, ctr=1, **kw):
-    return dict(fns=fns.split(","), msgs=msgs, supply=supply, ctr=ctr, kw=kw)
+def M(fns, msgs=1, supply=2, ctr=1, accsample=1, **kw):
+    return dict(fns=fns.split(","), msgs=msgs, supply=supply, ctr=ctr, accsample=accsample, kw=kw)
 
 
 LEDGER = {
@@ -28,36 +28,36 @@ LEDGER = {
                 mc=([M("ESDTNFTTransfer,create,flags", hs=("u0a", "u1a"), ptoks=("4e",), pshards=(0, 1), freeze=()),
                      M("ESDTTransfer,issue,MultiESDTNFTTransfer,flags", hs=("u0a", "u1a"), pshards=(1,)),
                      M("ESDTTransfer,issue,ESDTNFTTransfer,create")],
-                    [M("ESDTNFTTransfer,MultiESDTNFTTransfer,create,flags", hs=("u0a", "u1a"), ptoks=("4e",), pshards=(0, 1), freeze=()), M("ESDTTransfer,issue,MultiESDTNFTTransfer,flags", pshards=(0, 1)), M("ESDTTransfer,issue,ESDTNFTTransfer,MultiESDTNFTTransfer,create", msgs=2, hs=("u0a", "u0b", "u1a"))]),
+                    [M("ESDTNFTTransfer,MultiESDTNFTTransfer,create,flags", hs=("u0a", "u1a"), ptoks=("4e",), pshards=(0, 1), freeze=()), M("ESDTTransfer,issue,MultiESDTNFTTransfer,flags", pshards=(0, 1)), M("ESDTTransfer,issue,ESDTNFTTransfer,MultiESDTNFTTransfer,create", msgs=2, accsample=3)]),
                 need=dict(tok_ok=20, deliver_ok=5, deliver_err=1, refund_ok=1, overdraft_rej=1, alias_rej=1)),
     "C02": dict(profile="supply", preds=["P02_Delta", "P02_Others", "P02_NoOverdraft", "NoNegative", "Conservation"],
                 mc=([M("mintburn,create,flags,issue", supply=3)],
-                    [M("mintburn,create,flags,issue,ESDTTransfer", supply=3, ctr=2), M("mintburn,create,roles,issue", supply=3, hs=("u0a", "u0b"))]),
+                    [M("mintburn,create,flags,issue,ESDTTransfer", supply=3, ctr=2, accsample=8), M("mintburn,create,roles,issue", supply=3, hs=("u0a", "u0b"))]),
                 need=dict(supply_ok=20, overdraft_rej=2, role_rej=2)),
     "C03": dict(profile="roles", preds=["P03_Authority", "P03_Grant", "P03_Denied"],
                 mc=([M("mintburn,roles,acct"), M("create,handover,metaops")],
-                    [M("mintburn,roles,acct,flags", supply=3), M("create,handover,metaops,ESDTNFTTransfer", ctr=2), M("mintburn,create,handover,acct", hs=("u0a", "u1a"))]),
+                    [M("mintburn,roles,acct", supply=3, accsample=2), M("create,handover,metaops,ESDTNFTTransfer", ctr=2, hs=("u0a", "u1a")), M("mintburn,create,handover,acct", hs=("u0a", "u1a"))]),
                 need=dict(role_ok=10, role_rej=5, acct_ok=3, acct_rej=2, handover_ok=1, flag_ok=3)),
     "C04": dict(profile="freeze", preds=["P04_Immobile", "P04_NoCreditWhilePaused", "P04_FlagOnly", "P04_Restores"],
                 mc=([M("ESDTNFTTransfer,MultiESDTNFTTransfer,create,flags", hs=("u0a", "u1a"), ptoks=("4e",), pshards=(0, 1), freeze=()),
                      M("ESDTTransfer,MultiESDTNFTTransfer,flags,mintburn,issue", hs=("u0a", "u1a"), pshards=(1,), supply=3)],
-                    [M("ESDTNFTTransfer,MultiESDTNFTTransfer,create,flags", ptoks=("4e",), pshards=(0, 1), freeze=()), M("ESDTTransfer,MultiESDTNFTTransfer,flags,mintburn,issue", freeze=("u0a", "u1a"), pshards=(0, 1), supply=3)]),
+                    [M("ESDTNFTTransfer,MultiESDTNFTTransfer,create,flags", ptoks=("4e",), pshards=(0, 1), freeze=(), accsample=3), M("ESDTTransfer,MultiESDTNFTTransfer,flags,mintburn,issue", freeze=("u0a", "u1a"), pshards=(0, 1), supply=3, accsample=6)]),
                 need=dict(frozen_rej=3, paused_rej=3, flag_ok=10, refund_ok=1)),
     "C05": dict(profile="kv", preds=["P05_Protected", "P05_KVExact", "P05_Frame"],
                 mc=([M("kv,ESDTTransfer,acct")],
-                    [M("kv,ESDTTransfer,acct"), M("kv,ESDTNFTTransfer,create,flags,roles,handover", hs=("u0a", "u1a"))]),
+                    [M("kv,ESDTTransfer,acct"), M("kv,ESDTNFTTransfer,create,flags,handover", hs=("u0a", "u1a"), accsample=4)]),
                 need=dict(kv_ok=10, kv_prot_rej=5, tok_ok=5)),
     "C06": dict(profile="gas", flags=["-gassweep"], preds=["P06_NoGasCreated", "P06_Underfunded"],
-                mc=([M("ESDTTransfer,kv,create,ESDTNFTTransfer,MultiESDTNFTTransfer", gas=(0, 9, 10, 11, 60, 1000), hs=("u0a", "u1a"))],
-                    [M("ESDTTransfer,kv,create,ESDTNFTTransfer,MultiESDTNFTTransfer", gas=(0, 9, 10, 11, 60, 1000), hs=("u0a", "u1a")), M("metaops,mintburn,acct,create", gas=(0, 9, 10, 11, 20, 1000), hs=("u0a", "u1a"))]),
+                mc=([M("ESDTTransfer,kv,create,ESDTNFTTransfer,MultiESDTNFTTransfer", gas=(0, 9, 10, 11, 60, 1000), hs=("u0a", "u1a"), rejected=False)],
+                    [M("ESDTTransfer,kv,create,ESDTNFTTransfer,MultiESDTNFTTransfer", gas=(0, 9, 10, 11, 60, 1000), hs=("u0a", "u1a"), rejected=False, accsample=3), M("metaops,mintburn,acct,create", gas=(0, 9, 10, 11, 20, 1000), hs=("u0a", "u1a"), rejected=False, accsample=5)]),
                 need=dict(gas_max=20, gas_rej=20, priced=50)),
     "C07": dict(profile="nonce", preds=["P07_ReturnedNonce", "P07_Handover", "P07_CtrOnlyByCreate", "CounterWithRole"],
                 mc=([M("create,handover,ESDTNFTTransfer", ctr=2)],
-                    [M("create,handover,ESDTNFTTransfer", ctr=3), M("create,handover,ESDTNFTTransfer,MultiESDTNFTTransfer", msgs=2, ctr=2, hs=("u0a", "u1a"))]),
+                    [M("create,handover,ESDTNFTTransfer", ctr=2, accsample=2), M("create,handover,ESDTNFTTransfer,MultiESDTNFTTransfer", ctr=2, hs=("u0a", "u1a"))]),
                 need=dict(create_ok=15, handover_ok=2, handover_deliver=1)),
     "C08": dict(profile="meta", preds=["P08_Conf", "P08_Create", "P08_OnlyUriAttr", "P08_UriAttrExact", "P08_WrongHash"],
                 mc=([M("create,metaops,ESDTNFTTransfer")],
-                    [M("create,metaops,ESDTNFTTransfer,MultiESDTNFTTransfer", ctr=1), M("create,metaops,ESDTNFTTransfer", msgs=2, ctr=2, hs=("u0a", "u1a"))]),
+                    [M("create,metaops,ESDTNFTTransfer,MultiESDTNFTTransfer", ctr=1, accsample=2), M("create,metaops,ESDTNFTTransfer", msgs=2, ctr=2, hs=("u0a", "u1a"), accsample=3)]),
                 need=dict(create_ok=10, meta_fn_ok=2, tok_ok=15, deliver_ok=3)),
     "C09": dict(profile="payable", preds=["P09_Admissible", "P09_Rejected"],
                 mc=([M("ESDTTransfer,ESDTNFTTransfer,MultiESDTNFTTransfer,create,issue", hs=("u0a", "u1a", "c1a"))],
@@ -65,11 +65,11 @@ LEDGER = {
                 need=dict(payable_rej=3, tok_ok=20, nonpay_exempt=1)),
     "C10": dict(profile="transfer", preds=["P10_ParserEqualsLedger", "P10_RoundTrip", "P10_Accepted"],
                 mc=([M("ESDTTransfer,ESDTNFTTransfer,MultiESDTNFTTransfer,create,issue", hs=("u0a", "u1a", "c1a"))],
-                    [M("ESDTTransfer,ESDTNFTTransfer,MultiESDTNFTTransfer,create,issue", hs=("u0a", "u1a", "c1a")), M("ESDTTransfer,ESDTNFTTransfer,MultiESDTNFTTransfer,create,handover,acct", msgs=2, hs=("u0a", "u1a"))]),
+                    [M("ESDTTransfer,ESDTNFTTransfer,MultiESDTNFTTransfer,create,issue", hs=("u0a", "u1a", "c1a")), M("ESDTTransfer,ESDTNFTTransfer,MultiESDTNFTTransfer,create,handover,acct", hs=("u0a", "u1a"))]),
                 need=dict(out_msgs=10, parsed=30, deliver_ok=5)),
     "C11": dict(profile="mixed", flags=["-alloc", "-adversarial", "75"], preds=["P11_Shape", "P11_ShapeVerdict", "P11_Alloc"],
                 mc=([M("ESDTTransfer,ESDTNFTTransfer,MultiESDTNFTTransfer,create", rejected=True, hs=("u0a", "u1a")), M("mintburn,metaops,create", rejected=True, hs=("u0a",)), M("kv,flags", rejected=True, hs=("u0a",)), M("acct,handover", rejected=True, hs=("u0a", "u1a"))],
-                    [M("ESDTTransfer,ESDTNFTTransfer,MultiESDTNFTTransfer,create", rejected=True), M("mintburn,metaops,create,flags", rejected=True, hs=("u0a", "u1a")), M("kv,flags,acct,handover,roles", rejected=True, hs=("u0a", "u1a"))]),
+                    [M("ESDTTransfer,ESDTNFTTransfer,MultiESDTNFTTransfer,create", rejected=True), M("mintburn,metaops,create,flags", rejected=True, hs=("u0a", "u1a")), M("kv,flags,acct", rejected=True, hs=("u0a", "u1a")), M("handover,roles", rejected=True, hs=("u0a", "u1a"))]),
                 extra_runs=[("gas", ["-gassweep", "-alloc"], 0.5)],
                 need=dict(shapebad=100, steps=1000, gas_max=20)),
     "C13": dict(profile="mixed", flags=["-triple"], preds=["P13_Replicas", "P13_InputIntact"],
@@ -77,11 +77,11 @@ LEDGER = {
                 need=dict(replicas=500, tok_ok=10), scale=0.5),
     "C15": dict(profile="mixed", preds=["WellFormed", "SysClean", "NoNegative"],
                 mc=([M("ESDTTransfer,ESDTNFTTransfer,create,handover"), M("ESDTTransfer,flags,mintburn,issue", supply=3)],
-                    [M("ESDTTransfer,ESDTNFTTransfer,create,handover,metaops"), M("ESDTTransfer,flags,mintburn,issue,roles", supply=3), M("ESDTTransfer,issue,ESDTNFTTransfer,MultiESDTNFTTransfer,mintburn,create,flags,roles,handover", hs=("u0a", "u1a"))]),
+                    [M("ESDTTransfer,ESDTNFTTransfer,create,handover"), M("ESDTTransfer,flags,mintburn,issue,roles", supply=3, accsample=8), M("ESDTTransfer,issue,ESDTNFTTransfer,MultiESDTNFTTransfer,mintburn,create,handover", hs=("u0a", "u1a"), accsample=3)]),
                 need=dict(tok_ok=10, supply_ok=10, flag_ok=5, create_ok=5)),
     "C16": dict(profile="gas", flags=["-gassweep"], preds=["P16_Price", "P16_ProbePrice", "P16_Charged"],
-                mc=([M("sched,ESDTTransfer,kv,create,ESDTNFTTransfer,MultiESDTNFTTransfer", gas=(60, 1000), hs=("u0a", "u1a"))],
-                    [M("sched,ESDTTransfer,kv,create,ESDTNFTTransfer,MultiESDTNFTTransfer", gas=(60, 1000), hs=("u0a", "u1a")), M("sched,metaops,mintburn,acct,create", gas=(60, 1000), hs=("u0a", "u1a"))]),
+                mc=([M("sched,ESDTTransfer,kv,create,ESDTNFTTransfer,MultiESDTNFTTransfer", gas=(60, 1000), hs=("u0a", "u1a"), rejected=False, accsample=4)],
+                    [M("sched,ESDTTransfer,kv,create,ESDTNFTTransfer,MultiESDTNFTTransfer", gas=(60, 1000), hs=("u0a", "u1a"), rejected=False, accsample=6), M("sched,metaops,mintburn,acct,create", gas=(60, 1000), hs=("u0a", "u1a"), rejected=False, accsample=8)]),
                 need=dict(sched_ok=3, sched_rej=2, priced=80, probe=100)),
     "C17": dict(profile="mixed", flags=["-faults"], preds=["P17_FaultIsError", "P17_NoPanic"],
                 mc=([M("ESDTTransfer,issue,ESDTNFTTransfer,create")], [M("ESDTTransfer,issue,ESDTNFTTransfer,MultiESDTNFTTransfer,create,mintburn")]),
@@ -165,17 +165,23 @@ def model_and_emit(run, mc, label):
     kw.setdefault("rejected", not (run.tier == "quick" and len(kw.get("hs", ("a", "b", "c"))) > 2))
     if len(kw.get("gas", (1000,))) > 2 and run.tier == "quick":
         kw["gas"] = (kw["gas"][1], kw["gas"][-1])       # quick: the two most interesting gas points (just below a charge, ample)
-    kw.setdefault("rejsample", 12 if run.tier == "quick" else 6)
+    kw.setdefault("rejsample", 12 if run.tier == "quick" else 8)
+    kw.setdefault("accsample", mc.get("accsample", 1))
     ok, o, info = run.model_check("EsdtMC", mc_cfg(mc["fns"], mc["msgs"], mc["supply"], mc["ctr"], **kw), name="EsdtMC-%s-%s" % (run.pid, label),
                                   timeout=1200 if run.tier == "quick" else 7200)
     tf = os.path.join(run.dir, "trans-%s.ndjson" % label)
     n = 0
-    with open(tf, "w") as out:
-        for m in re.finditer(r'<<\s*"TRANS",\s*"(.*?)"\s*>>', o, re.S):
-            t = json.loads(m.group(1).replace('\\"', '"').replace("\\\\", "\\").replace("\n", ""))
+    outp = os.path.join(run.dir, "mc-EsdtMC-%s-%s" % (run.pid, label), "EsdtMC.out")
+    with open(tf, "w") as out, open(outp, errors="replace") as f:
+        for line in f:
+            if not line.startswith('<<"TRANS", "'):
+                continue
+            body = line.rstrip()[len('<<"TRANS", "'):-len('">>')]
+            t = json.loads(body.replace('\\"', '"').replace("\\\\", "\\"))
             t["w"] = fix_tlc_world(t["w"])
             out.write(json.dumps(t) + "\n")
             n += 1
+    os.remove(outp)
     if n == 0:
         raise Infra("no transition emitted by the model run")
     return tf, n
